@@ -29,7 +29,7 @@ VARIABLES
   backing,   \* [thread -> heap id]  backing heap
   flux,      \* [thread -> call record] the call in flight (or NoCall)
   arenas,    \* [arena id -> [a, e, excl]]
-  osfail,    \* [thread -> BOOLEAN] an OS request was refused while the thread's current call was running
+  osfail,    \* [thread -> <<refused, mapped>>] during the thread's current call an OS request was refused / new memory was mapped
   cfg,       \* configuration record of the run (build, padding, options)
   pcm,       \* <<max page areas in the first half, in the second half>> of a producer/consumer run (C08 NoBlowUp)
   step       \* number of events consumed (position in the trace)
@@ -82,7 +82,7 @@ ApiInit ==
   /\ backing = (0 :> 1)
   /\ flux = (0 :> NoCall)
   /\ arenas = <<>>
-  /\ osfail = (0 :> FALSE)
+  /\ osfail = (0 :> <<FALSE, FALSE>>)
   /\ cfg = [build |-> "rel", padding |-> FALSE]
   /\ pcm = <<0, 0>>
   /\ step = 0
@@ -132,7 +132,7 @@ MkBlock(c, r, h, zl) ==
 Call(c) ==
   /\ c.t \in DOMAIN flux /\ flux[c.t] = NoCall
   /\ step' = step + 1
-  /\ osfail' = [osfail EXCEPT ![c.t] = FALSE]
+  /\ osfail' = [osfail EXCEPT ![c.t] = <<FALSE, FALSE>>]
   /\ ObsOK(c.obs)
   /\ CASE c.op \in FreeOps ->
             /\ G("FreeOfLiveBlock", c.id \in LiveIds)
@@ -162,12 +162,14 @@ Call(c) ==
 \* ---------------------------------------------------------------- Ret: the call returns
 \* A NULL result of an allocating call is legitimate only for a malformed / oversized request class,
 \* after an OS refusal during the call, or for a heap bound to an arena (arena exhausted).
-NullAllowed(c) == c.cls # "ok" \/ osfail[c.t] \/ ArenaOf(HeapOf(c)) # 0
+NullAllowed(c) == c.cls # "ok" \/ osfail[c.t][1] \/ ArenaOf(HeapOf(c)) # 0
 
 RetAlloc(c, r) ==
   /\ UNCHANGED <<heaps, dflt, backing, arenas, cfg, pcm>>
   /\ IF r.null
      THEN /\ GD("WellFormedSucceeds", c.op, NullAllowed(c))
+          \* C15: a heap bound to an arena reports exhaustion with NULL and does not fall back to the operating system
+          /\ ((ArenaOf(HeapOf(c)) # 0 /\ c.cls = "ok" /\ ~osfail[c.t][1]) => GD("FullGivesNull", c.op, ~osfail[c.t][2]))
           /\ (c.cls = "einval" => GD("ErrCode", c.op, r.rc = 22))
           /\ (c.cls = "enomem" /\ c.op = "posix_memalign" => GD("ErrCode", c.op, r.rc = 12))
           /\ (c.op = "posix_memalign" => GD("OutParamUnchanged", c.op, r.outkeep))
@@ -273,7 +275,7 @@ VisitOK(c, r) ==
 RetHeap(c, r) ==
   CASE c.op \in {"heap_new", "heap_new_in_arena"} ->
          IF r.null
-         THEN /\ G("WellFormedSucceeds", osfail[c.t])
+         THEN /\ G("WellFormedSucceeds", osfail[c.t][1])
               /\ UNCHANGED <<live, heaps, dflt, backing, arenas, cfg, pcm>>
          ELSE \* the heap descriptor is itself a block of the thread's backing heap
               LET e == AddA(r.a, r.us) IN
@@ -287,7 +289,10 @@ RetHeap(c, r) ==
          /\ live' = [b \in LiveIds |-> IF live[b].h = c.h THEN [live[b] EXCEPT !.h = backing[c.t]] ELSE live[b]]
          /\ heaps' = [x \in DOMAIN heaps \ {c.h} |-> heaps[x]]
          /\ dflt' = [dflt EXCEPT ![c.t] = IF dflt[c.t] = c.h THEN backing[c.t] ELSE dflt[c.t]]
-         /\ UNCHANGED <<backing, arenas, cfg, pcm>>
+         \* deleting a heap that is bound to an exclusive arena hands its pages (inside that arena) to the unbound backing heap:
+         \* from then on the arena is no longer private (C15 does not cover this channel; C10 demands the migration)
+         /\ arenas' = [k \in DOMAIN arenas |-> IF k = heaps[c.h].arena THEN [arenas[k] EXCEPT !.excl = FALSE] ELSE arenas[k]]
+         /\ UNCHANGED <<backing, cfg, pcm>>
     [] c.op = "heap_destroy" ->
          /\ heaps' = [x \in DOMAIN heaps \ {c.h} |-> heaps[x]]
          /\ dflt' = [dflt EXCEPT ![c.t] = IF dflt[c.t] = c.h THEN backing[c.t] ELSE dflt[c.t]]
@@ -338,6 +343,8 @@ CheckAll(ev) ==
 \* a managed arena is announced (mi_manage_os_memory_ex / mi_reserve_os_memory_ex returned its id and area)
 ArenaNew(ev) ==
   /\ step' = step + 1
+  \* the area the allocator uses lies inside the region that was handed to mi_manage_os_memory_ex
+  /\ G("ManagedBounds", InsideR(ev.a, AddP(ev.a, ev.len), ev.ga, AddP(ev.ga, ev.glen)))
   /\ arenas' = arenas @@ (ev.id :> [a |-> ev.a, e |-> AddP(ev.a, ev.len), excl |-> ev.excl])
   /\ UNCHANGED <<live, heaps, dflt, backing, flux, osfail, cfg, pcm>>
 
@@ -349,7 +356,7 @@ ThreadStart(ev) ==
   /\ dflt' = dflt @@ (ev.t :> ev.h)
   /\ backing' = backing @@ (ev.t :> ev.h)
   /\ flux' = flux @@ (ev.t :> NoCall)
-  /\ osfail' = osfail @@ (ev.t :> FALSE)
+  /\ osfail' = osfail @@ (ev.t :> <<FALSE, FALSE>>)
   /\ UNCHANGED <<live, arenas, cfg, pcm>>
 
 \* thread exit: its heaps disappear, its live blocks stay live (orphans, heap 0)
@@ -367,7 +374,8 @@ ThreadDone(ev) ==
   /\ UNCHANGED <<arenas, cfg, pcm>>
 
 \* an OS request was refused while thread t was (possibly) inside a call
-OsRefused == osfail' = [x \in DOMAIN osfail |-> TRUE]
+OsRefused == osfail' = [x \in DOMAIN osfail |-> <<TRUE, osfail[x][2]>>]
+OsMapped == osfail' = [x \in DOMAIN osfail |-> <<osfail[x][1], TRUE>>]
 
 \* C08: a producer/consumer run with a bounded number of live blocks runs in bounded memory: the heap's page-area count
 \* reached in the second half of the run does not exceed what the first half (after a warm-up eighth) already reached (+2 pages).
